@@ -26,7 +26,9 @@ DATEFMT = '%Y-%m-%dT%H:%M:%S'
 
 # rules of sibling properties that are necessary conditions of this one too
 # (evaluated by the sibling module on the same graphs, reported under this property)
-ALSO = {'C16': {'R16.4': 'the recorded Path is computed for this argument and candidate, not '
+ALSO = {'C02': {'R02.2': 'the decoded location is used as recorded: join(volume, unquote(Path)), '
+                  'not re-resolved against the file system at restore time'},
+ 'C16': {'R16.4': 'the recorded Path is computed for this argument and candidate, not '
                   'remembered'},
  'C18': {'R18.2': 'realpath is applied to the parent of the entry only, so the recorded location is the one of the entry named',
          'R18.4': 'the recorded location is that of the entry named (only the parent is '
